@@ -1110,6 +1110,8 @@ class World:
                     a.shadow = True
                     try:
                         orig.DoGlobalIteration(int(op["keep"]))
+                    except Exception:
+                        pass        # (the original's own trouble - e.g. double precision exhausted - is not this actor's)
                     finally:
                         a.shadow = False
                     self.fired["original_continues_beside_its_deep_copy"] += 1
